@@ -109,11 +109,11 @@ class Check:
         for c, line in zip(cases, lines):
             slot.append(len(wire))
             wire.append(line); groups.append(c.group)
-            if c.op in REASON_OPS:
+            if c.op in REASON_OPS and not any(proto.has_huge_int(a) for a in c.args):      # (the reason sets are about serializable payloads)
                 wire.append(REASON_OPS[c.op] + line[len(c.op):]); groups.append(c.group)
         answers = self.driver.run(wire, groups)
         model = [answers[k] for k in slot]
-        reasons = [self._reason_set(answers[k + 1]) if c.op in REASON_OPS else None for c, k in zip(cases, slot)]
+        reasons = [self._reason_set(answers[k + 1]) if (c.op in REASON_OPS and not any(proto.has_huge_int(a) for a in c.args)) else None for c, k in zip(cases, slot)]
         out = []
         for c, line, m, rs in zip(cases, lines, model, reasons):
             try:
